@@ -87,6 +87,17 @@ def scenarios(tier, rng):
                                   {"ops": [{"op": "list", "dir": "@A"}, {"op": "restore", "dir": "@A"}]},
                                   {"ops": [{"op": "list", "dir": "@A"}, {"op": "load", "dir": "@A"}, {"op": "solve", "k": 2},
                                            {"op": "wait"}, {"op": "list", "dir": "@A"}]}]))
+    # default directory (checkpoint_dir=None -> checkpoints/<problem>/<date>/<time>/ under the working directory) through
+    # the configuration-object route, and the SAME configuration object reused for a second solver a little later
+    # (a parameter sweep): each solver gets its own directory and its own cadence/retention
+    for kind, pname in (("VI", "forest"), ("RVI", "forest")):
+        pspec, full = P[pname]
+        out.append(base_scenario(f"{kind}-{pname}-default-dir-config-object-reused", kind, pname, pspec, full, 2, 2, False,
+                                 [{"ops": [{"op": "new", "via_config": "fresh"}, {"op": "solve", "k": 4}, {"op": "wait"},
+                                           {"op": "list", "dir": "@SOLVER"}, {"op": "sleep", "s": 1.2},
+                                           {"op": "new", "via_config": "reuse", "kw": {"max_batch_size": 32}},
+                                           {"op": "solve", "k": 3}, {"op": "wait"}, {"op": "list", "dir": "@SOLVER"}]}],
+                                 default_dir=True))
     # the listed finding: restore an OLDER explicit step into the same directory, then one more iteration
     pspec, full = P["forest"]
     for kind in ("VI", "PI"):
